@@ -223,7 +223,7 @@ def polynomial_rules(ctx):
         ax = T.expr(b, oth[0]) if oth else ('local', -1)
         if oth and T.expr_has_call(ax, 'abs') and (('v1::Monomial', 'coefficient') in T.expr_fields(ax) or any(x[0] in ('local', 'place') and x[1] == vl for x in T.expr_walk(ax))):
             for g in T.guards_from_local(b, st['dst']['l'], bi): skips.add(g.true_bb if small else g.false_bb)
-    ctx.check(bool(info.acc_blocks) and T.must_pass(b, outer[2], {outer[1]}, info.acc_blocks | skips), R + '/collect/every-term', 'T-LOOPMUST', b.name, 'a monomial can bypass the result map', b.site())
+    ctx.check(bool(info.acc_blocks) and not pe.walk(b, [outer[2]], stop={outer[1]}, avoid=info.acc_blocks | skips)[1], R + '/collect/every-term', 'T-LOOPMUST', b.name, 'a monomial can bypass the result map', b.site())
     # ---- self.terms rebuilt from the map: Monomial { ids: key, coefficient: value } for every entry
     ws = writes_to_self_field(b, 'v1::Polynomial', 'terms')
     ok = False
